@@ -226,7 +226,7 @@ structure StB where
   rpos : Nat
   ar : Arena
 
-/-- One call of a history (`Iknp.runCallB` with `Store.assign`, the function
+/-- One call of a history (`Iknp.runCallB` with `Store.assign` and `BitStore.write`, the function
 `C06_iknp_history_buffers` is about). -/
 def runBatchB (R0 R1 SS : Nat → Nat → Byte) (delta : Label) (rtape : ByteArray) (al aw : Nat) (st : StB) :
     BatchB → Option (StB × String)
@@ -234,13 +234,13 @@ def runBatchB (R0 R1 SS : Nat → Nat → Byte) (delta : Label) (rtape : ByteArr
     if mal && rtape.size < st.rpos + 48 then none else
     let b0 := if mal then label128 rtape st.rpos else 0#128
     let b1 := if mal then label128 rtape (st.rpos + 16) else 0#128
-    match runCallB Store.assign R0 R1 SS delta st.rs st.ss st.ar (.labels mal b b0 b1 (buf.srcL al)) with
+    match runCallB Store.assign .write R0 R1 SS delta st.rs st.ss st.ar (.labels mal b b0 b1 (buf.srcL al)) with
     | some (rs', ss', ar', o, u) =>
       some ({ rs := rs', ss := ss', rpos := if mal then st.rpos + 48 else st.rpos, ar := ar' },
         s!"{if mal then "M" else "L"}:u={chunksHex u}/s={labelsHex o.out.sentL}/r={labelsHex o.out.rcvdL}")
     | none => none
   | .bits n ch rbuf sbuf =>
-    match runCallB Store.assign R0 R1 SS delta st.rs st.ss st.ar (.bits n ch (rbuf.srcW aw) (sbuf.srcW aw)) with
+    match runCallB Store.assign .write R0 R1 SS delta st.rs st.ss st.ar (.bits n ch (rbuf.srcW aw) (sbuf.srcW aw)) with
     | some (rs', ss', ar', o, u) =>
       some ({ st with rs := rs', ss := ss', ar := ar' },
         s!"B:u={chunksHex u}/s={wordsHex o.out.sentW}/r={wordsHex o.out.rcvdW}")
